@@ -2,21 +2,25 @@
 
 Three exhaustively enumerated program families (generators in props/_g12_gen.py), one oracle on EVERY input:
 
-(a) grammar-bounded valid programs: every statement kind of a Python 3.12 statement/expression grammar alone in
-    every context (def, async def, closure, class body, method, module); every statement kind in every block slot
-    of the structural compound statements (nesting 2) and a reduced statement set in every slot of every compound
-    header variant; all ordered statement pairs in one block; every expression kind (parenthesised) in every
-    expression slot of every statement/expression template; a def/generator/async def/class/lambda/comprehension
-    closing over the header-bound names in every block slot of every compound statement incl. every match case.
+(a) grammar-bounded programs of a Python 3.12 statement/expression grammar (~220 simple and ~330 compound statement
+    templates incl. every match pattern kind, ~330 expression templates): every statement kind alone in every context
+    (def, async def, closure, class body, method, module level); every statement kind in every block slot of the
+    structural compound statements (nesting 2; other compound headers with a reduced inner set); all ordered statement
+    pairs of a reduced set in one block; every expression kind (parenthesised) in every expression slot of every
+    statement/expression template; a def/generator/async def/class/lambda/comprehension closing over the header-bound
+    names in every block slot of every compound statement incl. every match case.  CPython compile() decides validity
+    of each program; valid ones are packed 240 per module (bisection on failure), invalid ones are compiled alone.
 (b) literal-focused programs: integers of 1..5000 digits in every base, extreme floats, 10^5-char strings, every
-    escape form x every prefix x every quote style, nesting shapes at depth 20/50/90/200, long chains.
-(c) invalid inputs: every token-boundary truncation, single-token deletion and adjacent-token swap of a 63-program
-    seed corpus (.py and .pyx); every byte of two small files replaced by NUL, 0xff, TAB, backslash and both quotes.
+    escape form x every prefix x every quote style, 47 nesting shapes at depth 20/50/90/200, 56 long chains.
+(c) invalid inputs: every token-boundary truncation, single-token deletion and adjacent-token swap of a seed corpus of
+    34 (.py/.pyx, quick) / 63 (thorough) programs; every byte of two small files replaced by NUL, 0xff, TAB, backslash
+    and both quotes.
 
-Oracle: the compiler returns (forked worker, timeout); no exception other than CompileError leaves it, no
-"Compiler crash in"/InternalError text; the result is positioned errors (file:line:col) or C code accepted by
-gcc -fsyntax-only (g++ too in thorough).  A text CPython's compile() accepts must compile without error, unless all
-errors are the three deliberate rejections named by the property (allowlist; the hit count is reported).
+Oracle: the compiler returns within 60 CPU seconds (forked worker, CPU-time timer), no exception other than
+CompileError leaves it, no "Compiler crash in"/InternalError/traceback text; the result is positioned errors
+(file:line:col) or C code accepted by gcc -fsyntax-only (g++ too in thorough).  A family (a)/(b) text (and every
+unmodified .py seed) that CPython's compile() accepts must compile without error, unless all errors are the three
+deliberate rejections named by the property (allowlist; hit count reported).
 """
 import os, re, sys, time, signal, subprocess, shutil, hashlib, collections, random
 from vlib import farm, runner
@@ -32,18 +36,24 @@ LEVEL_TEXT = ('Every program of three finite families is compiled with the stage
               'statement incl. every match case), each validated by CPython compile() first; (b) literal-focused programs '
               '(1..5000-digit integers in every base, extreme floats, 10^5-char strings, every escape form x prefix x quote, '
               'nesting depth 20/50/90/200, chains of 300/1000); (c) every token-boundary truncation, token deletion and '
-              'adjacent-token swap of a 63-program .py/.pyx seed corpus and every byte of two files replaced by 6 hostile bytes. '
-              'Oracle on every input: the compiler returns, raises nothing but CompileError, prints no internal-crash text, and '
-              'yields positioned errors or C accepted by gcc -fsyntax-only (and g++ in thorough); CPython-valid inputs must be '
-              'accepted unless only the three deliberate rejections fire.')
+              'adjacent-token swap of a 34-program (quick) / 63-program (thorough) .py/.pyx seed corpus and every byte of two '
+              'files replaced by 6 hostile bytes.  Oracle on every input: the compiler returns within 60 CPU s, raises nothing '
+              'but CompileError, prints no internal-crash text, and yields positioned errors or C accepted by gcc -fsyntax-only '
+              '(and g++ in thorough); CPython-valid inputs of (a)/(b) must be accepted unless only the three deliberate '
+              'rejections fire.')
 LEVEL_NOTE = ('Bounded grammar: blocks at nesting depth 2 hold one statement, depth-1 blocks at most two; expression pairs are '
               '(slot, parenthesised inner expression); the quick tier uses the structural compound set as outer statements at full '
-              'inner width and a reduced inner set elsewhere (thorough widens, adds nesting 3 and unparenthesised insertion).  Only '
+              'inner width and reduced inner sets elsewhere (thorough widens, adds nesting 3, unparenthesised insertion, C++ mode, '
+              'the full seed corpus and gcc on every accepted mutant; quick runs gcc on families (a)/(b) and the seeds).  Only '
               'compile-time behaviour is checked (generated C is syntax/type-checked by gcc, not run).  Names are chosen so that the '
               'deliberate rejections (undeclared name, definitely-unbound local, del of a closure variable) are not produced on '
-              'purpose; hits are allowlisted and counted.  Inputs on which CPython itself crashes (nested comprehensions at depth '
-              '>= 90) only get the no-crash oracle.  Trusted: CPython 3.12 compile() as validity reference, gcc/g++ 12, the pure-Python '
-              'staged compiler (compiled .so builds of the compiler are not exercised).  Type-alias statements are out of the grammar.')
+              'purpose; hits are allowlisted and counted.  By-design static-typing deviations are outside the alphabet and counted '
+              'separately: operations on literals/displays of statically known type that always fail at run time ((1)[b], (1)(b), '
+              'x: int = "s", a, b = "s", yield from 1) in the expression-slot family; annotating an already bound local; for mutants '
+              'of family (c) acceptance is not demanded at all.  Inputs on which CPython itself crashes (nested comprehensions at '
+              'depth >= 90) only get the no-crash oracle.  Attribute/subscript chains are capped at 300 (cubic compile time).  '
+              'Trusted: CPython 3.12 compile() as validity reference, gcc/g++ 12, the pure-Python staged compiler (compiled .so '
+              'builds of the compiler are not exercised).  Type-alias statements are out of the grammar.')
 
 ALLOW = [re.compile(r"^undeclared name not builtin: "),
          re.compile(r"^local variable '.*' referenced before assignment$"),
@@ -160,7 +170,12 @@ def compile_one(name, data, ext, wd, cplus=False, gcc=True, gcc_cache=None, want
                 m = re.search(r'(?:fatal )?error: ([^\n]*)', out)
                 k = m.group(1) if m else out.strip().split('\n')[-1]
                 k = re.sub(r'; did you mean .*', '', k)
-                k = re.sub(r'__pyx_\w+', '__pyx_X', k)
+                # keep the CLASS of a generated identifier (user variable, temp, method def, label, ...), drop its instance
+                k = re.sub(r'__pyx_(v|t|mdef|pf|pw|gb|n_u|n_s|n_b|k|kp|codeobj|L|f|e|tp|ptype|type|vtable|int|float|tuple)_?\w*',
+                           lambda m: '__pyx_%s_X' % m.group(1), k)
+                fn = re.search(r"In function [^_]{0,3}__pyx_([a-z]+)_", out)
+                if fn:
+                    k += ' [in %s]' % fn.group(1)
                 k = re.sub(r'[‘’\']', "'", k)
                 k = re.sub(r'\d+', 'N', k)[:100]
                 res = dict(status='cc', key=k, text=out[:3000])
@@ -461,8 +476,8 @@ def run(ctx):
     alljobs = []
     for cplus in configs:
         for j in jobs:
-            if cplus and not j['fam'].startswith(('a', 'b-nest', 'b-chain', 'c-seed')):
-                continue                      # the C++ pass covers the code-generating families
+            if cplus and not j['fam'].startswith(('a1', 'a3', 'a6', 'b-nest', 'b-chain', 'c-seed')):
+                continue                      # the C++ pass covers one family per kind of generated code
             jj = dict(j)
             jj['cplus'] = cplus
             jj['id'] = len(alljobs)
